@@ -13,7 +13,7 @@ CASES = {'quick': 8000, 'thorough': 300000}
 PARALLEL = True
 RULE = ('every exception class of pyramid.httpexceptions x detail/comment/explanation/location/header/environ texts '
         '(HTML metacharacters, Template syntax such as ${detail} $$ ${br}, non-ASCII, astral, control characters, lone '
-        'surrogates) x Accept headers (specific, wildcards, q-values, absent, empty, malformed; negotiated by WebOb) x '
+        'surrogates) x Accept headers (specific, wildcards, q-values, absent, empty, malformed, long valid headers of 170-1400 characters; negotiated by WebOb) x '
         'default / class / custom body templates, called as a WSGI application, plus Router.__call__ on unknown '
         'paths, plus the other raisers reached through a real Router (static view: not found / out of bounds / add-slash '
         'redirect with request URL and query string; PredicateMismatch of multiviews and predicated views; HTTPForbidden '
@@ -162,6 +162,19 @@ ACCEPTS = [None, '', 'text/html', 'application/json', 'text/plain', '*/*', 'text
            'text/html;q=0.0005, application/json;q=0.0004', '*/*;q=0', 'text/*;q=0, */*']
 
 
+# long but perfectly valid Accept headers (real browsers / API clients send 100-300 characters): length must not matter
+LONG_ACCEPTS = [
+    'text/html,application/xhtml+xml,application/xml;q=0.9,image/avif,image/webp,image/apng,*/*;q=0.8,'
+    'application/signed-exchange;v=b3;q=0.7,application/vnd.example.v1+json;q=0.6,text/plain;q=0.5',
+    'application/json, application/vnd.api+json;q=0.9, application/problem+json;q=0.8, application/ld+json;q=0.7, '
+    'application/hal+json;q=0.6, application/x-ndjson;q=0.5, text/plain;q=0.4, text/html;q=0.1',
+    'application/json;q=0.9, text/html;q=1.0, ' + ', '.join('application/x-type-%02d;q=0.1' % i for i in range(8)),
+    ', '.join('image/x-format-%02d' % i for i in range(9)) + ', application/json',
+    ', '.join('image/x-format-%02d' % i for i in range(9)) + ', text/html;q=0.3, application/json;q=0.2',
+    'text/plain' + ';q=1' + ', image/png' * 12 + ', application/json;q=0.5',
+]
+
+
 def gen_text(rng, maxn=6, surrogates=True):
     n = rng.choice([0, 1, 1, 2, 2, 3, 4, maxn])
     parts = []
@@ -185,7 +198,13 @@ def gen_opt_text(rng, p_none=0.25, **kw):
 
 
 def gen_accept(rng):
-    if rng.random() < 0.75:
+    r = rng.random()
+    if r < 0.06:
+        a = rng.choice(LONG_ACCEPTS)
+        if rng.random() < 0.3:      # padded further with harmless parameters-free types
+            a += ''.join(', audio/x-pad-%03d;q=0.01' % i for i in range(rng.choice([3, 10, 40])))
+        return a
+    if r < 0.75:
         return rng.choice(ACCEPTS)
     n = rng.choice([1, 2, 2, 3])
     items = []
@@ -924,6 +943,8 @@ def kinds(case, obs):
             k.append('extra-headers')
         k += _ext_kinds(case, [obs[2] if obs[0] == 'OK' else 'exc'])
         texts = _supplied(case)
+    if acc is not None and len(acc) > 128:
+        k.append('accept-long')
     k.append('accept-' + ('absent' if acc is None else 'empty' if acc == '' else 'wild' if '*' in acc else
                           'q' if 'q=' in acc else 'plainlist'))
     j = ''.join(texts)
@@ -1118,6 +1139,13 @@ def targeted(broken, disagreements, rng):
                     out.append({'via': 'history', 'cls': cls, 'detail': t, 'comment': t, 'explanation': None,
                                 'location': 'http://example.com/' + t if tb['classes'][cls]['move'] else '',
                                 'headers': [], 'body_template': None, 'calls': envs})
+    for acc in LONG_ACCEPTS:
+        env = [list(kv) for kv in BASE_ENV] + [['HTTP_ACCEPT', acc]]
+        out.append({'via': 'direct', 'cls': 'HTTPNotFound', 'detail': '<script>alert(1)</script>', 'comment': None,
+                    'explanation': None, 'location': '', 'headers': [], 'environ': env, 'body_template': None,
+                    'formatter': None, 'ctype_kw': None, 'charset_kw': None})
+        out.append({'via': 'router', 'path': '/<script>${br}', 'accept': acc})
+        out.append({'via': 'app', 'kind': 'static-missing', 'path': '/static/zz<b>', 'query': '', 'script': '', 'accept': acc})
     for cls in ['HTTPNotFound', 'HTTPClientError', 'HTTPBadRequest', 'HTTPServerError', 'HTTPFound', 'HTTPForbidden']:
         if cls in tb['classes'] and _factory_ok(cls):
             for acc in ['text/html', 'application/json', None]:
